@@ -330,3 +330,17 @@ package invoices
 //@   site call UpdateAMPSubInvoiceHTLCPreimage: assert arg(2).ChanID == ret(FormatUint) && arg(2).HtlcID == swrap(circuitKey.HtlcID, 64) &&
 //@        arg(2).InvoiceID == swrap(s.invoice.AddIndex, 64)
 //@   ensures result == nil ==> retn(RowsAffected, 0) != 0
+//@
+//@ // ---- the working copy every accept / settle decision is made on carries the invoice's own terms and state: amount, final CLTV delta,
+//@ // ---- expiry, payment address, preimage (by value), hold flag, state and amount paid
+//@ func CopyInvoice
+//@   props C15
+//@   loop * havoc
+//@   ensures result1 == nil ==> result0 != nil && result0 != src
+//@   ensures result1 == nil ==> result0.Terms.FinalCltvDelta == old(src.Terms.FinalCltvDelta) && result0.Terms.Value == old(src.Terms.Value) &&
+//@           result0.Terms.Expiry == old(src.Terms.Expiry) && result0.Terms.PaymentAddr == old(src.Terms.PaymentAddr)
+//@   ensures result1 == nil ==> (result0.Terms.PaymentPreimage == nil <==> old(src.Terms.PaymentPreimage) == nil)
+//@   ensures result1 == nil && old(src.Terms.PaymentPreimage) != nil ==> *result0.Terms.PaymentPreimage == old(*src.Terms.PaymentPreimage)
+//@   ensures result1 == nil ==> result0.State == old(src.State) && result0.AmtPaid == old(src.AmtPaid) && result0.HodlInvoice == old(src.HodlInvoice) &&
+//@           result0.AddIndex == old(src.AddIndex) && result0.SettleIndex == old(src.SettleIndex) && result0.CreationDate == old(src.CreationDate) &&
+//@           result0.SettleDate == old(src.SettleDate)
